@@ -113,7 +113,7 @@ func TestReplay(t *testing.T) {
 }
 
 var recDoc = ev.New("C17", "c17.document",
-	"exhaustive: every document of <=N chars over {a,LF} x every ordered range with coordinates up to 2 beyond the document x 5 replacement texts; "+
+	"exhaustive: every document of <=N chars over {a,LF}, their CR LF variants and documents with a stray CR x every ordered range with coordinates up to 2 beyond the document x 7 replacement texts (two with CR); "+
 		"random: multi-byte documents (columns at rune boundaries) and edit sequences of up to 40 open/replace/incremental edits incl. out-of-range positions. "+
 		"Non-trivial = an incremental (ranged) edit applied to a document with >=2 lines; distinct by (document, range, text)")
 
@@ -122,7 +122,7 @@ func isNT(doc string, op Op) bool { return !op.Nil && strings.Contains(doc, "\n"
 // TestPropExhaustive enumerates the small space completely.
 func TestPropExhaustive(t *testing.T) {
 	maxLen := ev.Pick(4, 6)
-	texts := []string{"", "x", "\n", "x\ny", "\n\n"}
+	texts := []string{"", "x", "\n", "x\ny", "\n\n", "x\r\ny", "\r"}
 	var docs []string
 	var gen func(p string)
 	gen = func(p string) {
@@ -134,6 +134,13 @@ func TestPropExhaustive(t *testing.T) {
 		gen(p + "\n")
 	}
 	gen("")
+	// documents with CR LF line ends (and a stray CR): a carriage return is a byte of its line
+	for _, d := range append([]string(nil), docs...) {
+		if strings.Contains(d, "\n") && len(d) <= maxLen-1 {
+			docs = append(docs, strings.ReplaceAll(d, "\n", "\r\n"))
+		}
+	}
+	docs = append(docs, "a\rb", "a\r", "\r\n\r\n", "ab\r\ncd\r\n")
 	n := 0
 	for _, doc := range docs {
 		lines := strings.Split(doc, "\n")
@@ -175,7 +182,7 @@ func TestPropExhaustive(t *testing.T) {
 	recDoc.Eval(n)
 	recDoc.ClassN("exhaustive-single-edit", n)
 	recDoc.Set("exhaustive", true)
-	recDoc.Set("exhaustive_space", fmt.Sprintf("documents over {a,LF} of length <=%d (%d docs), all ordered ranges with coordinates <= size+2, texts %q", maxLen, len(docs), texts))
+	recDoc.Set("exhaustive_space", fmt.Sprintf("documents over {a,LF} of length <=%d plus CR LF variants (%d docs), all ordered ranges with coordinates <= size+2, texts %q", maxLen, len(docs), texts))
 }
 
 // knownClass maps a failing case to a listed known-finding class, or "".
